@@ -392,6 +392,11 @@ static void gen_conv(struct scen *sc, struct rng *r, long c)
 		sc->init_records = 2000 + (int)rndn(r, 1000); /* draws with repetition: some 850-950 distinct records */
 		sc->nk = 320 + (int)rndn(r, MAX_K - 320);
 		sc->init_keys = 4 * sc->nk; /* nearly all of them */
+		/* every exchange costs in proportion to the data, and a conversation lasts until the convergence bound has
+		 * passed: with a refresh interval of a second that is thousands of polls - here the client polls every
+		 * quarter of an hour or less often, whatever the End of Data asks for */
+		sc->cfg.refresh = 900 + rndn(r, 2000);
+		sc->cfg.iv_mode = RTR_INTERVAL_MODE_IGNORE_ANY;
 		CNT("sim/scenarios_with_responses_of_over_300_pdus_per_kind");
 	}
 	if (c % 11 == 5)
